@@ -22,6 +22,18 @@ CLAIMED = {
          "Every recorded run of the real dispatcher (gated replays of TLC-simulated behaviours, the counterexample of the no-recheck variant, seeded concurrent loads over overlapping users) is checked line by line by TLC against TraceAgent.tla: each response must equal the sequential store semantics at its linearization point, acknowledged writes may only be changed by later client writes, and at idle the projected directory must equal the model's store and be valid.",
          "Queues are abstracted to a bag of pending calls in the trace spec (FIFO order per channel is not checked). Frontend-level (socket) histories are covered by C04/C05, not here.",
          "4/C11"),
+ "C08": ("TLC over StoreFS (every crash point x power-loss view of the write protocol) + strace-observed system calls of the real store validated against TracePosixFS + real kill-before-each-call runs",
+         "TLC checks CrashAtomic over the kill view and every power-loss view in every state of the StoreFS model (and refutes the no-fsync and write-in-place variants); the real store.Dir is run under strace for every operation instance and its mutating system calls are validated by TLC against TracePosixFS (CrashAtomic after every real call); the driver is additionally killed right before each mutating call, the real directory is projected and must equal the model's kill view, and a fresh store instance must show old-until-new, never a third password, unchanged other users and a passing consistency check.",
+         "Standard persistence model (file data durable after fsync of the file, directory entries after fsync of the directory, rename atomic); power loss is derived by TLC, not performed. Content classes (old/new/torn) are computed by the harness from the logged byte counts and data. Concurrent readers are covered only through the kill views.",
+         "4/C08"),
+ "C09": ("TLC AckDurable / NoVisibleBeforeDurable over all power-loss views, on the StoreFS model and on the strace-observed system-call order of the real code",
+         "The verdict is the invariant evaluated by TLC on the real order of write / fsync / rename / unlink / directory-fsync calls of every operation instance (generic PosixFS layer), over every subset of not-yet-durable directory operations and every torn version of un-fsynced data; the wrong variants (no dir fsync for add/update, set-admin, remove; the code before the fix) are refuted on the model.",
+         "Standard persistence model; .tmp entries are never durable by design and treated as permitted residue.",
+         "4/C09"),
+ "C15": ("TLC FailureChangesNothing on StoreFS with single-call faults + every Store edge replayed (aux, other users, failures, read-only) + strace fault injection into every system call of every operation",
+         "Semantic failures, read-only calls, aux preservation and untouched other users are checked on every edge of the bounded Store model against the real store.Dir with byte-level tree snapshots; I/O failures are checked by failing each system call of each operation instance with ENOSPC/EIO/EACCES/EMFILE under strace and comparing the reported result with a byte-level snapshot; read-only operations are straced and must issue no mutating call.",
+         "Single fault per operation. Two known findings (failure reported after the commit rename) are listed in known_findings.json. Agent-level read-only guarantee (SASL/LDAP/refused HTTP) is exercised in C04/C06.",
+         "4/C15"),
 }
 
 checks = []
